@@ -44,6 +44,10 @@ def sizes(a):
     return nlist(a)
 
 
+def hist(h):
+    return "[" + "; ".join("TV %d %s" % (t["msize"], coq_bool(t["ok"])) for t in h) + "]"
+
+
 def opt(x):
     return "None" if x is None or x < 0 else "(Some %d)" % x
 
@@ -58,14 +62,16 @@ def to_case(o):
         return "SConsts %d %d %d %d %d %d %d %d %d" % (o["largestFixedSize"], o["headerLength"], o["maximumLength"], o["tread"], o["twrite0"],
                                                         o["treaddir"], o["rread0"], o["rreaddir0"], o["rlerror"])
     if k == "ssetup":
-        return "SSetup %d %d %s" % (o["req"], o["ann"], coq_bool(o["ok"]))
+        return "SSetup %s" % coq_bool(o["ok"])
+    if k == "shist":
+        return "SHist %s %s" % (hist(o["hist"]), nlist(o.get("announced")))
     if k == "sread":
-        return "SRead %d %d %d %d %d %d %d %s %s %s" % (o["req"], o["ann"], o["count"], o["fsize"], o["off"], o["rtype"], o["rsize"], coq_bool(o["err"]),
-                                                        opt(o.get("rcount")), opt(o.get("asked")))
+        return "SRead %s %d %d %d %d %d %d %d %d %s %s" % (hist(o["hist"]), o["ann"], o["count"], o["fsize"], o["off"], o["rtype"], o["rsize"], o.get("errno", 0), o["err"],
+                                                           opt(o.get("rcount")), opt(o.get("asked")))
     if k == "sxread":
-        return "SXRead %d %d %d %d %d %d %d %s %s" % (o["req"], o["ann"], o["count"], o["off"], o["vlen"], o["rtype"], o["rsize"], coq_bool(o["err"]), opt(o.get("rcount")))
+        return "SXRead %s %d %d %d %d %d %d %d %d %s" % (hist(o["hist"]), o["ann"], o["count"], o["off"], o["vlen"], o["rtype"], o["rsize"], o.get("errno", 0), o["err"], opt(o.get("rcount")))
     if k == "sreaddir":
-        return "SReaddir %d %d %d %s %d %d %s %s" % (o["req"], o["ann"], o["count"], sizes(o.get("sizes")), o["rtype"], o["rsize"], coq_bool(o["err"]), opt(o.get("rcount")))
+        return "SReaddir %s %d %d %s %d %d %d %s" % (hist(o["hist"]), o["ann"], o["count"], sizes(o.get("sizes")), o["rtype"], o["rsize"], o["err"], opt(o.get("rcount")))
     if k == "client":
         frames = "[" + "; ".join("(%d, %d, %d)" % (f["type"], f["size"], f["count"]) for f in (o.get("frames") or [])) + "]"
         alls = nlist([f["size"] for f in (o.get("all") or [])][1:])   # without the Tversion itself
